@@ -573,11 +573,11 @@ def parseChunk(raw):  # reading transfer encoded raw
     size = size.strip()
     if not size or size.strip(b'0123456789abcdefABCDEF'):  # chunk-size = 1*HEX
         # int(x, 16) would also accept sign, 0x prefix and underscores
-        raise ValueError("Invalid chunk size '{0}'".format(size.decode('iso-8859-1')))
+        raise HTTPException("Invalid chunk size '{0}'".format(size.decode('iso-8859-1')))
     try:
         size = int(size.decode('ascii'), 16)
-    except ValueError:  # bad size
-        raise
+    except ValueError as ex:  # bad size
+        raise HTTPException("Invalid chunk size '{0}'".format(size.decode('iso-8859-1'))) from ex
 
     if exts:  # parse extensions parameters
         exts = exts.split(b';')
@@ -614,7 +614,7 @@ def parseChunk(raw):  # reading transfer encoded raw
             (yield None)
 
         if line:  # not empty so raise error
-            raise ValueError("Chunk end error. Expected empty got "
+            raise HTTPException("Chunk end error. Expected empty got "
                      "'{0}' instead".format(line.decode('iso-8859-1')))
 
     (yield (size, parms, trails, chunk))
